@@ -46,8 +46,13 @@ Fixpoint rt_routes (cursor : Z) (routees : list nat) (k : nat) : Z * list (optio
 Definition fanout (routees : list nat) : list nat := map (fun r => r) routees.
 
 (* availableRoutees: iterate routeesMap (Go map order = the oracle `order`, a permutation of the
-   entries); a routee that is not running is deleted from the map but still appended this time. *)
+   entries); a routee that is not running is deleted from the map and skipped
+   (fixes/C21-dead-routee.diff), and the hash ring is rebuilt from the routees that are left. *)
 Definition available (order : list (nat * bool)) : list nat * list (nat * bool) :=
+  let live := filter (fun e => snd e) order in (map fst live, live).
+
+(* before the repair the routee just deleted was still appended to the slice handed out *)
+Definition available_unrepaired (order : list (nat * bool)) : list nat * list (nat * bool) :=
   (map fst order, filter (fun e => snd e) order).
 
 (* ---------- consistent-hash ring ---------- *)
